@@ -118,7 +118,7 @@ def size(d):
     if isinstance(d, AlwaysBreak):
         return 1 + size(d.doc)
     if isinstance(d, Annotated):
-        return 2 + size(d.doc)
+        return 3 + size(d.doc)
     if isinstance(d, FlatChoice):
         return 1 + size(d._when_broken) + size(d._when_flat)
     if isinstance(d, Contextual):
@@ -337,3 +337,5 @@ _pred_contract('smart_fitting_predicate', True)
 C.assume('float multiplication and round() are uninterpreted; only the clamps the code applies are used')
 C.assume('Contextual functions are pure and deterministic functions of (indent, column, page_width, ribbon_width) '
          'returning a document whose size is bounded by a ghost weight (lemma_apply_ctx, trusted)')
+
+from . import layout_den  # noqa: E402,F401  (den, best_layout)
